@@ -115,4 +115,230 @@ def observe (cfg : Cfg) (s : State) (maxConc : Nat) : Obs :=
     maxConc := maxConc,
     leaked := goroutinesLeft cfg s }
 
+
+/-! ### trace validation (exact refinement check against instrumented code)
+
+With the `verif` hooks of `pkg/util/worker.go` every atomic step of the model has an instrumentation
+point right after the access to the shared object it stands for.  The harness records the hook
+calls of one run in ONE log (mutex-protected append).  What the log order guarantees:
+* events of one goroutine appear in program order;
+* if hook call A returned before hook call B began, A is before B;
+* the ACTION an event reports (channel operation, lock, atomic store …) happened after the previous
+  event of the same goroutine was logged and before the event itself was logged — nothing more:
+  two actions of different goroutines whose intervals overlap may be logged in either order.
+  (Exception: the hooks in `storeResult` and `Results` are called while `wg.mu` is held, so the log
+  order of those events is exactly the order of their critical sections.)
+Therefore a trace is accepted iff SOME reordering of the log that keeps every goroutine's own order,
+keeps the order of the events logged under `wg.mu`, and never moves an event before one that was
+logged before its interval began (`wellOrdered`) is a
+path of the model's `step` relation from `init` (`replay`), each event being interpreted as the
+model label(s) it stands for, INCLUDING the outcome it reports (`interp`: which select branch, was
+the notify channel full, how many results did `Results` return, which group's item was received,
+new or reused worker …).  The reordering (`order`) is found by a search in the driver and then
+checked here; `Props/C14.trace_sound` is about this checker.
+-/
+
+/-- one hook call: point name and up to two numeric arguments (caller index, worker execution id,
+count) as resolved by the harness -/
+structure Ev where
+  pt : String
+  a : Nat := 0
+  b : Nat := 0
+  c : Nat := 0
+deriving DecidableEq, Repr, Inhabited
+
+def hasPrefix (p s : String) : Bool := p.toList.isPrefixOf s.toList
+
+/-- the goroutine an event belongs to: (kind, id) -/
+def Ev.thread (e : Ev) : Nat × Nat :=
+  if hasPrefix "rj." e.pt || hasPrefix "do." e.pt then (0, e.a)
+  else if hasPrefix "rd." e.pt || hasPrefix "res." e.pt then (1, e.a)
+  else if hasPrefix "rq." e.pt then (2, 0)
+  else if hasPrefix "rp." e.pt || hasPrefix "pq." e.pt || hasPrefix "dj." e.pt then (3, 0)
+  else if hasPrefix "wk." e.pt || hasPrefix "sr." e.pt then (4, e.a)
+  else if hasPrefix "stop." e.pt then (5, 0)
+  else (6, e.a)
+
+/-- model state plus the job each worker execution (goroutine started by `doJob`) works on -/
+structure TState where
+  s : State
+  execs : List (Nat × Job) := []     -- worker execution (goroutine started by doJob) ↦ its job
+  doneBy : List (Job × Nat) := []    -- job ↦ number of the worker that executes it
+
+def TState.job (t : TState) (e : Nat) : Option Job := (t.execs.find? (fun p => p.1 == e)).map (·.2)
+
+def guardL (c : Bool) (ls : List Label) : Option (List Label) := if c then some ls else none
+
+/-- the model labels an event stands for in state `t` (`none`: the event is impossible here);
+the second component is the execution table after the event -/
+def interp (cfg : Cfg) (t : TState) (e : Ev) : Option (List Label × List (Nat × Job) × List (Job × Nat)) :=
+  let s : State := t.s
+  let g : Nat := e.a
+  let c : Caller := s.callers g
+  let keep : Option (List Label) → Option (List Label × List (Nat × Job) × List (Job × Nat)) :=
+    fun o => o.map (fun ls => (ls, t.execs, t.doneBy))
+  match e.pt with
+  -- RunJobs / Do (submitter of caller g)
+  | "rj.start" => keep (guardL (c.sub == .loop && c.next == 0 && e.b == cfg.jobs g) [])
+  | "rj.add" => keep (some [.subAdd g])
+  | "do.ctxerr" => keep (guardL c.cancelled [.subCtx g])
+  | "do.ctxok" => keep (guardL (!c.cancelled) [.subCtx g])
+  | "do.rlock" => keep (some [.subRLock g])
+  | "do.closed" => keep (guardL s.queueClosed [.subClosed g])
+  | "do.open" => keep (guardL (!s.queueClosed) [.subClosed g])
+  | "do.sent" => keep (some [.subSend g])
+  | "do.selctx" => keep (some [.subSelCtx g])
+  | "do.selstop" => keep (some [.subSelStop g])
+  | "do.runlocked" =>
+    keep (if c.sub == .runlockOk then some [.subRUnlockOk g]
+          else if c.sub == .runlockFail then some [.subRUnlockFail g] else none)
+  | "rj.done" => keep (some [.subFailDone g])
+  | "rj.loopend" =>
+    keep (if c.sub == .loop then some [.subLoopEnd g] else if c.sub == .wait then some [] else none)
+  | "rj.waited" => keep (some [.subWait g])
+  | "rj.removed" => keep (some [.subRemove g])
+  | "rj.closed" => keep (some [.subCloseEnd g])
+  -- reader of caller g
+  | "rd.notify" => keep (some [.rdNotify g])
+  | "res.take" => keep (guardL ((s.results.filter (isGrp g)).length == e.b) [.rdResults g])
+  -- the next result of the reader's slice; it carries the name of the worker that produced it
+  | "rd.done" => keep ((s.rbatch.find? (fun k => k.grp == g)).bind fun j =>
+      guardL ((t.doneBy.find? (fun p => p.1 == j)).map (·.2) == some e.b) [.rdDeliver j])
+  | "rd.batchend" => keep (some [.rdBatchEnd g])
+  | "rd.end" => keep (some [.rdEnd g])
+  -- runQueuing
+  | "rq.recv" => keep (match s.input with
+      | some j => guardL (j.grp == g) [.qRecv j]
+      | none => none)
+  | "rq.added" => keep (match s.q with
+      | .add j => some [.qAdd j]
+      | _ => none)
+  | "rq.notified" => keep (guardL (!s.inputNotify) [.qNotify])
+  | "rq.notify-full" => keep (guardL s.inputNotify [.qNotify])
+  | "rq.stop" => keep (if s.q == .select then some [.tSend] else if s.q == .drain && s.t == .done then some [] else none)
+  | "rq.drain-recv" => keep (match s.input with
+      | some j => guardL (j.grp == g) [.qDrainRecv j]
+      | none => none)
+  | "rq.drain-added" => keep (match s.q with
+      | .drainAdd j => some [.qDrainAdd j]
+      | _ => none)
+  | "rq.drain-empty" => keep (some [.qDrainEmpty])
+  | "rq.stopsent" => keep (if s.q == .sendStop then some [.qSendStop] else if s.q == .exited then some [] else none)
+  -- run / runProcessing / processQueue / doJob
+  | "rp.notify" => keep (some [.pNotify])
+  | "rp.stop" => keep (if s.q == .sendStop then some [.qSendStop]
+                       else if s.q == .exited && s.p == .len true then some [] else none)
+  | "pq.empty" => keep (match s.p with
+      | .len f => guardL s.queue.isEmpty [.pLen f]
+      | _ => none)
+  | "pq.nonempty" => keep (match s.p with
+      | .len f => guardL (!s.queue.isEmpty) [.pLen f]
+      | _ => none)
+  | "pq.pop-err" => keep (match s.p with
+      | .pop f => some [.pPopEmpty f]
+      | _ => none)
+  | "pq.popped" => keep (match s.p, s.queue.head? with
+      | .pop f, some j => guardL (j.grp == g) [.pPop f j]
+      | _, _ => none)
+  | "dj.new" => (match s.p with
+      | .doJob f j => if j.grp == e.b then some ([.pSpawnNew f j], (e.a, j) :: t.execs, (j, e.c) :: t.doneBy) else none
+      | _ => none)
+  | "dj.reuse" => (match s.p with
+      | .doJob f j => if j.grp == e.b then some ([.pSpawnReuse f j], (e.a, j) :: t.execs, (j, e.c) :: t.doneBy) else none
+      | _ => none)
+  -- worker execution e.a
+  | "wk.ctxerr" => keep ((t.job e.a).map fun j => [.wCheckErr j])
+  | "wk.ctxok" => keep ((t.job e.a).map fun j => [.wCheckOk j])
+  | "wk.ran" => keep ((t.job e.a).map fun j => [.wRun j])
+  | "sr.notified" => keep ((t.job e.a).bind fun j => guardL (j.grp == e.b && !(s.callers j.grp).notify) [.wStore j])
+  | "sr.notify-full" => keep ((t.job e.a).bind fun j => guardL (j.grp == e.b && (s.callers j.grp).notify) [.wStore j])
+  | "wk.put" => keep (guardL (decide (s.idle < cfg.maxWorkers)) [.wPut])
+  | "wk.put-dropped" => keep (guardL (!decide (s.idle < cfg.maxWorkers)) [.wPut])
+  -- Stop
+  | "stop.closed" => keep (some [.stopBegin])
+  | "stop.locked" => keep (some [.tLockReq, .tLockAcq])
+  | "stop.set" => keep (some [.tSet])
+  | "stop.unlocked" => keep (some [.tUnlock])
+  | "stop.sent" => keep (if s.t == .send then some [.tSend] else if s.t == .done then some [] else none)
+  -- the harness cancels caller g's ctx
+  | "env.cancel-pre" => keep (some [])
+  | "env.cancel" => keep (if c.cancelled then some [] else some [.cancel g])
+  | _ => none
+
+/-- one event: interpret, then take the model steps -/
+def tstep (cfg : Cfg) (t : TState) (e : Ev) : Option TState :=
+  match interp cfg t e with
+  | none => none
+  | some (ls, ex, by') =>
+    match runSched cfg t.s ls with
+    | some s' => some { s := s', execs := ex, doneBy := by' }
+    | none => none
+
+/-- replay the events in the given order (indices into the log) -/
+def replay (cfg : Cfg) (evs : Array Ev) : TState → List Nat → Option TState
+  | t, [] => some t
+  | t, i :: is =>
+    match evs[i]? with
+    | none => none
+    | some e =>
+      match tstep cfg t e with
+      | some t' => replay cfg evs t' is
+      | none => none
+
+/-- events logged while `wg.mu` is held (`storeResult`, `Results`): the hook call is inside the critical
+section that contains the action, critical sections are serialised, hence the log order of these
+events IS the order of their actions -/
+def Ev.underMu (e : Ev) : Bool := hasPrefix "sr." e.pt || hasPrefix "res." e.pt
+
+/-- the first index ≥ `f` that is not marked (at most `fuel` steps) -/
+def advance (seen : Array Bool) : Nat → Nat → Nat
+  | 0, f => f
+  | fuel + 1, f => if seen.getD f false then advance seen fuel (f + 1) else f
+
+/-- for every position with key `some k`: the last earlier position with the same key -/
+def prevTable : List (Option (Nat × Nat)) → Nat → List ((Nat × Nat) × Nat) → List (Option Nat)
+  | [], _, _ => []
+  | none :: ks, i, last => none :: prevTable ks (i + 1) last
+  | some k :: ks, i, last =>
+    ((last.find? (fun p => p.1 == k)).map (·.2)) :: prevTable ks (i + 1) ((k, i) :: last.filter (fun p => p.1 != k))
+
+/-- index of the previous event of the same goroutine, for every event -/
+def prevSame (evs : Array Ev) : Array (Option Nat) :=
+  (prevTable (evs.toList.map fun e => some e.thread) 0 []).toArray
+
+/-- index of the previous event logged under `wg.mu`, for every event logged under `wg.mu` -/
+def prevMu (evs : Array Ev) : Array (Option Nat) :=
+  (prevTable (evs.toList.map fun e => if e.underMu then some (0, 0) else none) 0 []).toArray
+
+/-- `order` uses every event exactly once, keeps every goroutine's own order and the order of the
+events logged under `wg.mu`, and never places an event before one that was logged before its
+interval began (= before its goroutine's previous event) -/
+def wellOrdered (evs : Array Ev) (order : List Nat) : Bool :=
+  let n := evs.size
+  let prev : Array (Option Nat) := prevSame evs
+  let pmu : Array (Option Nat) := prevMu evs
+  decide (order.length = n) &&
+  (order.foldl (fun (acc : Option (Array Bool × Nat)) i =>
+      match acc with
+      | none => none
+      | some (seen, first) =>
+        if i < n && !seen.getD i true then
+          let ok1 := match prev.getD i none with
+            | none => true
+            | some p => seen.getD p false && decide (p ≤ first)   -- everything logged before p is placed
+          let ok2 := match pmu.getD i none with
+            | none => true
+            | some p => seen.getD p false
+          if ok1 && ok2 then
+            let seen := seen.set! i true
+            -- advance `first` = the first log index not placed yet
+            some (seen, advance seen n first)
+          else none
+        else none)
+    (some ((List.replicate n false).toArray, 0))).isSome
+
+/-- the trace check: `order` is an admissible reordering of the log and a path of the model -/
+def traceOk (cfg : Cfg) (evs : Array Ev) (order : List Nat) : Bool :=
+  wellOrdered evs order && (replay cfg evs { s := init cfg } order).isSome
+
 end AutoVerif.C14
